@@ -4,7 +4,9 @@ import GdslModel.Lemmas.Own
 `OwnSt` (Model/Own.lean) counts the strong handles held by program slots (node handles, edges,
 paths, search results, containers); adjacency entries are weak and are not counted. `sel` is the
 list a node iterates (`outAdj` for the directed, `unAdj` for the undirected flavours); the only thing
-assumed about it is that it yields adjacency entries of that node.
+assumed about it is that it yields adjacency entries of that node. `mutF` is what `try_connect`,
+`disconnect`, `isolate` and the queries do to the adjacency lists: the theorems hold for *every* such
+function, i.e. no edge operation or query can create, keep or drop a handle, whatever it does to the lists.
 -/
 namespace G
 variable {K E : Type} [DecidableEq K]
@@ -18,46 +20,73 @@ def OwnSt.Inv (st : OwnSt K E) : Prop :=
   st.created.Nodup ∧ st.released.Nodup ∧ (∀ k ∈ st.released, k ∈ st.created) ∧
   (∀ k ∈ st.held, k ∈ st.created) ∧ (∀ k ∈ st.created, (k ∈ st.released ↔ st.count k = 0))
 
-theorem Own.inv_step (sel : Store K E → K → List (K × E)) (hsel : SelOk sel) (st st' : OwnSt K E) (op : OwnOp K E)
-    (h : st.Inv) (hs : st.step sel op = some st') : st'.Inv :=
-  Own.inv_step' sel hsel st st' op h hs
+theorem Own.inv_step (sel : Store K E → K → List (K × E)) (mutF : Store K E → K → K → StoreOp E → Store K E) (hsel : SelOk sel) (st st' : OwnSt K E) (op : OwnOp K E)
+    (h : st.Inv) (hs : st.step sel mutF op = some st') : st'.Inv :=
+  Own.inv_step' sel mutF hsel st st' op h hs
 
 /-- after every history: released at most once, only after creation, never while a handle is held,
     and always once the last handle is gone -/
-theorem Own.inv_run (sel : Store K E → K → List (K × E)) (hsel : SelOk sel) (ops : List (OwnOp K E)) :
-    (OwnSt.run sel ops).Inv :=
-  Own.inv_run' sel hsel ops
+theorem Own.inv_run (sel : Store K E → K → List (K × E)) (mutF : Store K E → K → K → StoreOp E → Store K E) (hsel : SelOk sel) (ops : List (OwnOp K E)) :
+    (OwnSt.run sel mutF ops).Inv :=
+  Own.inv_run' sel mutF hsel ops
 
-theorem Own.released_once (sel : Store K E → K → List (K × E)) (hsel : SelOk sel) (ops : List (OwnOp K E)) :
-    (OwnSt.run sel ops).released.Nodup :=
-  (Own.inv_run' sel hsel ops).2.1
+theorem Own.released_once (sel : Store K E → K → List (K × E)) (mutF : Store K E → K → K → StoreOp E → Store K E) (hsel : SelOk sel) (ops : List (OwnOp K E)) :
+    (OwnSt.run sel mutF ops).released.Nodup :=
+  (Own.inv_run' sel mutF hsel ops).2.1
 
 /-- no node value is released while a handle to its node is still held -/
-theorem Own.no_premature_release (sel : Store K E → K → List (K × E)) (hsel : SelOk sel) (ops : List (OwnOp K E))
-    (k : K) (hk : k ∈ (OwnSt.run sel ops).held) : k ∉ (OwnSt.run sel ops).released :=
-  Own.no_premature_release' sel hsel ops k hk
+theorem Own.no_premature_release (sel : Store K E → K → List (K × E)) (mutF : Store K E → K → K → StoreOp E → Store K E) (hsel : SelOk sel) (ops : List (OwnOp K E))
+    (k : K) (hk : k ∈ (OwnSt.run sel mutF ops).held) : k ∉ (OwnSt.run sel mutF ops).released :=
+  Own.no_premature_release' sel mutF hsel ops k hk
 
 /-- no leak: once the program has dropped all its handles every created node value has been released,
     whatever the graph looks like (cycles, self-loops, still-connected nodes) -/
-theorem Own.all_released_at_end (sel : Store K E → K → List (K × E)) (hsel : SelOk sel) (ops : List (OwnOp K E))
-    (hempty : (OwnSt.run sel ops).held = []) :
-    ∀ k, k ∈ (OwnSt.run sel ops).created ↔ k ∈ (OwnSt.run sel ops).released :=
-  Own.all_released_at_end' sel hsel ops hempty
+theorem Own.all_released_at_end (sel : Store K E → K → List (K × E)) (mutF : Store K E → K → K → StoreOp E → Store K E) (hsel : SelOk sel) (ops : List (OwnOp K E))
+    (hempty : (OwnSt.run sel mutF ops).held = []) :
+    ∀ k, k ∈ (OwnSt.run sel mutF ops).created ↔ k ∈ (OwnSt.run sel mutF ops).released :=
+  Own.all_released_at_end' sel mutF hsel ops hempty
 
 /-- connecting two nodes creates no handle and releases nothing: edges do not own nodes -/
-theorem Own.edges_do_not_own (sel : Store K E → K → List (K × E)) (st st' : OwnSt K E) (a b : Nat) (e : E)
-    (hs : st.step sel (.connect a b e) = some st') :
+theorem Own.edges_do_not_own (sel : Store K E → K → List (K × E)) (mutF : Store K E → K → K → StoreOp E → Store K E) (st st' : OwnSt K E) (a b : Nat) (e : E)
+    (hs : st.step sel mutF (.connect a b e) = some st') :
     st'.slots = st.slots ∧ st'.released = st.released ∧ st'.created = st.created :=
-  Own.edges_do_not_own' sel st st' a b e hs
+  Own.edges_do_not_own' sel mutF st st' a b e hs
+
+/-- `try_connect`, `disconnect`, `isolate` and every query through node handles: no slot changes, nothing is
+    released and nothing is created, whatever the operation does to the adjacency lists -/
+theorem Own.store_ops_do_not_own (sel : Store K E → K → List (K × E)) (mutF : Store K E → K → K → StoreOp E → Store K E)
+    (st st' : OwnSt K E) (a b : Nat) (m : StoreOp E)
+    (hs : st.step sel mutF (.storeOp a b m) = some st') :
+    st'.slots = st.slots ∧ st'.released = st.released ∧ st'.created = st.created :=
+  Own.store_ops_do_not_own' sel mutF st st' a b m hs
+
+/-- the released set after a history does not depend on what the edge operations and queries do to the lists,
+    as long as no operation is refused differently: with the same slots the accounting is the same.
+    Stated for one step: two states that agree on slots/created/released and both accept `op` agree afterwards
+    on slots/created/released for every operation that does not read the store -/
+theorem Own.accounting_ignores_store (sel : Store K E → K → List (K × E)) (mutF mutF' : Store K E → K → K → StoreOp E → Store K E)
+    (st st' : OwnSt K E) (a b : Nat) (m : StoreOp E)
+    (hs : st.step sel mutF (.storeOp a b m) = some st') :
+    ∃ st'', st.step sel mutF' (.storeOp a b m) = some st'' ∧
+      st''.slots = st'.slots ∧ st''.released = st'.released ∧ st''.created = st'.created :=
+  Own.accounting_ignores_store' sel mutF mutF' st st' a b m hs
 
 /-- edges, paths and search results keep the nodes they mention alive: whatever a slot holds is alive -/
-theorem Own.held_alive (sel : Store K E → K → List (K × E)) (hsel : SelOk sel) (ops : List (OwnOp K E))
-    (i : Nat) (k : K) (hk : k ∈ (OwnSt.run sel ops).slot i) : (OwnSt.run sel ops).alive k = true :=
-  Own.held_alive' sel hsel ops i k hk
+theorem Own.held_alive (sel : Store K E → K → List (K × E)) (mutF : Store K E → K → K → StoreOp E → Store K E) (hsel : SelOk sel) (ops : List (OwnOp K E))
+    (i : Nat) (k : K) (hk : k ∈ (OwnSt.run sel mutF ops).slot i) : (OwnSt.run sel mutF ops).alive k = true :=
+  Own.held_alive' sel mutF hsel ops i k hk
 
 theorem selOk_out : SelOk (outAdj (K := K) (E := E)) := by
   intro s k p hp; exact List.mem_append_left _ hp
 theorem selOk_un : SelOk (unAdj (K := K) (E := E)) := by
   intro s k p hp; exact hp
 
+end G
+
+/-! non-vacuity: the hypotheses of the store-operation theorems are met by a concrete reachable state -/
+namespace G
+example : ((OwnSt.run (K := Nat) (E := Nat) outAdj (fun s _ _ _ => s) [.new 0 0, .new 1 1, .connect 0 1 7]).step
+    outAdj (fun s _ _ _ => s) (.storeOp 0 1 .disconnect)).isSome = true := by decide
+example : (((OwnSt.run (K := Nat) (E := Nat) unAdj (fun s _ _ _ => s) [.new 0 0, .new 1 1, .connect 0 1 7]).step
+    unAdj (fun s _ _ _ => s) (.find 0 1 5)).map (·.slot 5)) = some [1] := by decide
 end G
